@@ -37,9 +37,10 @@ class ExpiryMode(vlib.Mode):
         for _ in range(nb):
             specs = []
             for _ in range(rng.choice([4, 6, 8])):
-                specs.append(f"{rng.choice([1, 1, 2, 3])}:{rng.choice([50, 200, 500, 800, 950, rng.randrange(20, 980)])}:{rng.choice(['idle', 'idle', 'busy', 'stall', 'ignoreclose'])}")
+                specs.append(f"{rng.choice([1, 1, 2, 3])}:{rng.choice([50, 200, 500, 800, 950, rng.randrange(20, 980)])}:{rng.choice(['idle', 'idle', 'busy', 'busyrx', 'stall', 'ignoreclose'])}")
             # the boundary: a code minted a second before the expiry and presented INSIDE the second that begins at the expiry (exp - now == 0)
             specs.append(f"1:{rng.choice([100, 400, 700])}:late")
+            specs.append(f"{rng.choice([1, 2])}:{rng.choice([150, 600])}:busyrx")    # a connection that keeps RECEIVING must expire on time too
             cases.append(["batch " + " ".join(specs)])
         if tier == "thorough":
             cases.append(["idle 75 70"])
